@@ -4,6 +4,7 @@
      ens      <id> <nodes> <md> <rules> <rank> <idx> <rf>            -> set of  ok:a.b.c | err:<kind> | panic
      single   <id> <nodes> <md> <rules> <rank> <idx> <sel|nosel>     -> set of  ok:a | err:<kind> | panic
      swap     <id> <nodes> <md> <rules> <rank> <idx> <ens> <from>    -> set of  swap:t | noswap | err:<kind> | panic
+     place    <id> <nodes> <md> <rules> <rf>                         -> set of  ok:a.b.c | refused | panic   (no ranking)
      swapnode <id> <ens> <removed> <from> <to>                       -> ok:<ens>/<removed> | refused:<ens>/<removed>
      round    <id> <nodes> <md> <rank> <idx> <shards> <reqs>         -> set of  <trace>;<final>
               shards "sid/rules/ens_sid/rules/ens", reqs "sid>from,sid>from" ("-" = none)
@@ -51,6 +52,13 @@ let () = read_lines (fun line ->
     let rs = M.ensemble_select version (env md rules rank idx) (ids nodes) (nat_of_int (int_of_string rf)) in
     Printf.printf "%s %s\n" id (set_str (List.map (function
       | M.Ok l -> "ok:" ^ str_ids "." l | M.Err e -> "err:" ^ err_name e | M.Panic -> "panic") rs))
+  | ["place"; id; nodes; md; rules; rf] ->
+    (* shard creation through the coordinator: the load ranking is not an input; without a ranking every candidate
+       is an admissible pick, so the outcome set contains the outcomes of every ranking; errors are not observable
+       in the cluster status (the namespace is absent) *)
+    let rs = M.ensemble_select version (env md rules "nil" "nil") (ids nodes) (nat_of_int (int_of_string rf)) in
+    Printf.printf "%s %s\n" id (set_str (List.map (function
+      | M.Ok l -> "ok:" ^ str_ids "." l | M.Err _ -> "refused" | M.Panic -> "panic") rs))
   | ["single"; id; nodes; md; rules; rank; idx; sel] ->
     let sel = if sel = "nosel" then None else Some (ids sel) in
     let rs = M.single_case version (env md rules rank idx) (ids nodes) sel in
